@@ -290,6 +290,13 @@ func (harness) Run(cfg xplore.Config, ch vrt.Chooser, trace bool) (xplore.Outcom
 			}
 			if vrt.ArmedTimers() == 0 {
 				for _, t := range d.targets {
+					// silence beyond the receive time-out ends the session: a target
+					// whose stream is quiet (its manager parked in Recv) with a receive
+					// time-out configured owns a running time-out - on EVERY session,
+					// not only the first
+					if managed[t] && d.recvTimeout && e.inSession(t) && !hasRace(d.ctls) {
+						viol("silent-session-never-ends", "round %d: target %s has a receive time-out configured and its stream is silent (manager parked in Recv), but no timer is armed: this silence will never end the session; parked: %v; trace: %s", round, t, vrt.ParkedInfo(), e.render(t))
+					}
 					if managed[t] && !e.inSession(t) && !hasRace(d.ctls) {
 						viol("retry-stopped", "round %d: target %s is managed, not in a session, and no timer is armed: retry has silently stopped; parked: %v; trace: %s", round, t, vrt.ParkedInfo(), e.render(t))
 					}
